@@ -4,10 +4,12 @@ package main
 // body is checked against the transport's size limit and the upstream's original.
 
 import (
+	"encoding/hex"
 	"fmt"
 	"strings"
 	"time"
 
+	"github.com/IrineSistiana/mosproxy/verif/internal/dnsclient"
 	"github.com/IrineSistiana/mosproxy/verif/internal/fakeup"
 	"github.com/IrineSistiana/mosproxy/verif/internal/gen"
 	"github.com/miekg/dns"
@@ -43,6 +45,14 @@ func c09E2E(c *Ctx) {
 		}
 		qt := gen.Pick(r, []uint16{dns.TypeA, dns.TypeTXT, dns.TypeMX})
 		a := gen.Pick(r, adv)
+		if i%20 == 13 {
+			// a response whose uncompressed encoding has 65508..65535 octets - beyond what a UDP datagram
+			// could carry, still within the 65535 of the DoH body and the framed transports - to a client
+			// without EDNS0 (nothing is added): nothing may be omitted
+			listener = []string{"http", "fasthttp", "https", "tcp", "tls", "quic"}[(i/20)%6]
+			up, a = "pipe", -1
+			name = fmt.Sprintf("ok-n1-uexact%d-s%dx%d.pipe.test.", 65508+(i/20*5)%28, i, c.Seed)
+		}
 		q := new(dns.Msg)
 		q.Id = uint16(r.Intn(65536))
 		q.RecursionDesired = true
@@ -118,4 +128,71 @@ func c09E2E(c *Ctx) {
 			c.Ev.Sample(map[string]any{"part": "e2e", "listener": listener, "name": name, "advertised": a, "limit": limit, "response_len": len(x.Resp), "full_uncompressed_len": fullLen, "truncated": omitted})
 		}
 	})
+}
+
+// c09Refused: the size limit also holds for the answers the proxy makes up itself. A client that
+// the limiter refuses sends UDP queries with ten long questions (over 700 octets, no EDNS0): every
+// response - REFUSED or NOTIMP - stays within 512 octets and decodes.
+func c09Refused(c *Ctx) {
+	b, err := NewBed(c, "refused", BedOpts{Upstreams: []string{"pipe"}, Listeners: []string{"udp", "tcp"}, Limiter: "  client:\n    limit: 1\n    burst: 2\n"})
+	if err != nil {
+		c.startFailure(err, "c09-refused")
+		return
+	}
+	defer b.Stop()
+	uc, err := dnsclient.DialUDP("", b.L["udp"])
+	if err != nil {
+		c.Inconclusive("dial: " + err.Error())
+		return
+	}
+	defer uc.Close()
+	for k := 0; k < 12; k++ {
+		q := new(dns.Msg)
+		q.Id = uint16(100 + k)
+		q.RecursionDesired = true
+		for j := 0; j < 10; j++ {
+			q.Question = append(q.Question, dns.Question{Name: fmt.Sprintf("q%d-%s.%s.pipe.test.", j, strings.Repeat("a", 50), strings.Repeat(string(rune('b'+j)), 10)), Qtype: dns.TypeA, Qclass: dns.ClassINET})
+		}
+		if k%3 == 2 {
+			q.SetEdns0(600, false)
+		}
+		wire, err := q.Pack()
+		if err != nil {
+			c.Inconclusive("pack: " + err.Error())
+			return
+		}
+		uc.Send(wire)
+		time.Sleep(20 * time.Millisecond)
+	}
+	time.Sleep(500 * time.Millisecond)
+	refused := 0
+	for _, p := range uc.Received() {
+		c.Ev.Eval(1)
+		m := new(dns.Msg)
+		limit := 512
+		if len(p.Data) >= 2 && (int(p.Data[0])<<8|int(p.Data[1])-100)%3 == 2 {
+			limit = 600
+		}
+		cs := map[string]any{"response_len": len(p.Data), "limit": limit, "response_hex": hex.EncodeToString(p.Data[:min(len(p.Data), 120)])}
+		switch {
+		case len(p.Data) > limit:
+			rc := -1
+			if len(p.Data) > 3 {
+				rc = int(p.Data[3] & 0xF)
+			}
+			c.Violation("e2e:over-limit:udp:made-up-response", fmt.Sprintf("a %d-octet UDP response (rcode %d) to a query with ten questions from a client the limiter refuses; the limit is %d", len(p.Data), rc, limit), cs)
+			return
+		case m.Unpack(p.Data) != nil:
+			c.Violation("e2e:undecodable:udp:made-up-response", "the made-up response does not decode", cs)
+			return
+		}
+		if m.Rcode == dns.RcodeRefused {
+			refused++
+		}
+		c.Ev.Distinct("e2e", "made-up-response", m.Rcode, limit)
+	}
+	c.Ev.Count("e2e_made_up_responses_refused", int64(refused))
+	if refused == 0 {
+		c.Inconclusive("refused scenario: the limiter never refused")
+	}
 }
